@@ -33,7 +33,24 @@
 //     (B) after an offline resync, then again after all tombstones expired
 //     (epoch advance + event + 2 GC passes + flush), then after a SECOND resync.
 //
-// Objects tombstoned/marked but not collected yet are not in Removed.
+//     (C) "long downtime": all tombstones expire FIRST (no GC pass), then a
+//     resync with the live epoch (every tombstone is indexed while already expired
+//     by its own header), restart, epoch event, 2 GC passes, flush, second resync.
+//
+// Tombstoned = objects with an ACCEPTED tombstone (Shard.Put of the tombstone
+// returned nil, also when the tombstone arrives late with an expiration below
+// the current epoch) that were not stored anew; they are judged by the same
+// oracle from the end of the tombstone put on, collected or not: in the code
+// under test a tombstoned object is unreadable while the tombstone is indexed
+// and is collected in the very pass that drops the expired tombstone.
+// Not asserted (excluded by construction, counted as excluded cases): a
+// tombstoned object in the RESYNC stages when none of its tombstones is in
+// the blob storage at that moment (tombstone still in the write-cache only, or
+// already dropped by the running GC pass): a resync reads blobs only.
+// Objects only garbage-marked (no tombstone) and not collected yet are not tracked.
+//
+// A third of the histories is steered to "tombstone expires without a GC pass,
+// (flush,) resync, GC pass" and a third to "late tombstone (exp < epoch), GC pass".
 package c09
 
 import (
@@ -64,6 +81,11 @@ type snapMeta struct {
 	removed  []oid.Address
 	raced    map[oid.Address]bool
 	resynced map[oid.Address]bool
+	// tombed: objects with an accepted tombstone that were not stored anew (superset
+	// of the tombstoned part of removed: includes the not yet collected ones)
+	tombed []oid.Address
+	// tombsOf: the accepted tombstones per tombstoned object
+	tombsOf map[oid.Address][]oid.Address
 }
 
 type model struct {
@@ -74,6 +96,9 @@ type model struct {
 	raced map[oid.Address]bool
 	// resynced: a live resync happened after such a race
 	resynced map[oid.Address]bool
+	// tombed / tombsOf: see snapMeta
+	tombed  map[oid.Address]bool
+	tombsOf map[oid.Address][]oid.Address
 	// stored: a put of the object succeeded and it was not removed since
 	// (only for the non-triviality rule: removing a never-stored object is trivial)
 	stored map[oid.Address]bool
@@ -150,6 +175,12 @@ func (m *model) snapMeta() any {
 	for a := range m.resynced {
 		s.resynced[a] = true
 	}
+	s.tombsOf = map[oid.Address][]oid.Address{}
+	for a := range m.tombed {
+		s.tombed = append(s.tombed, a)
+		s.tombsOf[a] = append([]oid.Address(nil), m.tombsOf[a]...)
+	}
+	sort.Slice(s.tombed, func(i, j int) bool { return s.tombed[i].EncodeToString() < s.tombed[j].EncodeToString() })
 	return s
 }
 
@@ -162,7 +193,12 @@ type violation struct {
 // observe applies the oracle to one shard.
 func observe(sh *shard.Shard, removed []oid.Address, where string) []violation {
 	var vs []violation
+	seen := map[oid.Address]bool{}
 	for _, a := range removed {
+		if seen[a] {
+			continue
+		}
+		seen[a] = true
 		if ok, err := sh.Exists(a, false); ok && err == nil {
 			vs = append(vs, violation{a, where, "Exists = (true, nil)"})
 		}
@@ -181,22 +217,55 @@ func must(err error, what string, s crashrig.Snap) {
 
 // aftermath reopens one crash snapshot in the two ways described in the
 // package comment and applies the oracle at every stage.
-func aftermath(r *crashrig.Rig, w *crashrig.World, s crashrig.Snap) []violation {
+func aftermath(r *crashrig.Rig, w *crashrig.World, s crashrig.Snap, rec *ev.Recorder) []violation {
 	meta := s.Meta.(snapMeta)
 	var vs []violation
-	dirB := s.Dir + "-b"
+	all := append(append([]oid.Address(nil), meta.removed...), meta.tombed...)
+
+	// Tombstoned objects whose tombstones are not in the blob storage of this
+	// crash state (still in the write-cache only, or already collected with the
+	// object's own collection pending) lose their removal record in a resync:
+	// excluded from the resync stages by construction (the write-cache is not
+	// part of a resync; not asserted, see the package comment).
+	var tombs []oid.Address
+	for _, x := range meta.tombed {
+		tombs = append(tombs, meta.tombsOf[x]...)
+	}
+	inBlob, err := crashrig.BlobHas(s.Dir, tombs)
+	must(err, "blob lookup", s)
+	afterResync := append([]oid.Address(nil), meta.removed...)
+	expiredShape := false
+	for _, x := range meta.tombed {
+		ok := false
+		for _, t := range meta.tombsOf[x] {
+			ok = ok || inBlob[t]
+		}
+		if ok {
+			afterResync = append(afterResync, x)
+			if !contains(meta.removed, x) {
+				expiredShape = true // tombstone and (possibly) its target are still there
+			}
+		} else if !contains(meta.removed, x) {
+			rec.Excluded(1)
+			rec.Label("excluded:tombstone-not-in-blob-at-snapshot-resync")
+		}
+	}
+
+	dirB, dirC := s.Dir+"-b", s.Dir+"-c"
 	must(snap.Copy(s.Dir, dirB), "copy", s)
 	defer os.RemoveAll(dirB)
+	must(snap.Copy(s.Dir, dirC), "copy", s)
+	defer os.RemoveAll(dirC)
 
 	// (A) plain restart
 	sh, _, err := r.OpenSnapshot(s.Dir, s.Epoch)
 	must(err, "open", s)
-	vs = append(vs, observe(sh, meta.removed, "crash+restart")...)
+	vs = append(vs, observe(sh, all, "crash+restart")...)
 	if r.Cfg.WC {
 		_ = sh.FlushWriteCache(false)
 	}
 	sh.VerifGCPass()
-	vs = append(vs, observe(sh, meta.removed, "crash+restart+flush+gc")...)
+	vs = append(vs, observe(sh, all, "crash+restart+flush+gc")...)
 	must(sh.Close(), "close", s)
 
 	// (B) resync, tombstone expiry, second resync
@@ -205,7 +274,7 @@ func aftermath(r *crashrig.Rig, w *crashrig.World, s crashrig.Snap) []violation 
 	must(crashrig.Resync(dirB, ep), "resync", s)
 	sh, ep, err = r.OpenSnapshot(dirB, s.Epoch)
 	must(err, "open after resync", s)
-	vs = append(vs, observe(sh, meta.removed, "crash+resync+restart")...)
+	vs = append(vs, observe(sh, afterResync, "crash+resync+restart")...)
 	e := max(uint64(w.MaxExp), s.Epoch) + 1
 	ep.Set(e)
 	sh.VerifNewEpoch(e)
@@ -214,14 +283,52 @@ func aftermath(r *crashrig.Rig, w *crashrig.World, s crashrig.Snap) []violation 
 	if r.Cfg.WC {
 		_ = sh.FlushWriteCache(false)
 	}
-	vs = append(vs, observe(sh, meta.removed, "crash+resync+restart+tombstones-expired+gc+flush")...)
+	vs = append(vs, observe(sh, afterResync, "crash+resync+restart+tombstones-expired+gc+flush")...)
 	must(sh.Close(), "close", s)
 	must(crashrig.Resync(dirB, ep), "second resync", s)
 	sh, _, err = r.OpenSnapshot(dirB, e)
 	must(err, "open after second resync", s)
-	vs = append(vs, observe(sh, meta.removed, "crash+resync+tombstones-expired+gc+flush+second-resync")...)
+	vs = append(vs, observe(sh, afterResync, "crash+resync+tombstones-expired+gc+flush+second-resync")...)
 	must(sh.Close(), "close", s)
+
+	if os.Getenv("VERIF_C09_SKIP_STAGE_C") != "" {
+		return vs // sensitivity experiments only: judge by the live shapes alone
+	}
+	// (C) long downtime: the tombstones expire FIRST (epoch advance, no GC pass),
+	// then the resync runs with the live epoch (every tombstone is indexed while
+	// already expired by its own header), restart, GC passes, second resync
+	ep = &stor.Epoch{}
+	ep.Set(e)
+	must(crashrig.Resync(dirC, ep), "resync after expiry", s)
+	sh, ep, err = r.OpenSnapshot(dirC, e)
+	must(err, "open after resync after expiry", s)
+	vs = append(vs, observe(sh, afterResync, "crash+tombstones-expired+resync+restart")...)
+	sh.VerifNewEpoch(e)
+	sh.VerifGCPass()
+	sh.VerifGCPass()
+	if r.Cfg.WC {
+		_ = sh.FlushWriteCache(false)
+	}
+	vs = append(vs, observe(sh, afterResync, "crash+tombstones-expired+resync+restart+gc+flush")...)
+	must(sh.Close(), "close", s)
+	must(crashrig.Resync(dirC, ep), "second resync", s)
+	sh, _, err = r.OpenSnapshot(dirC, e)
+	must(err, "open after second resync", s)
+	vs = append(vs, observe(sh, afterResync, "crash+tombstones-expired+resync+gc+flush+second-resync")...)
+	must(sh.Close(), "close", s)
+	if expiredShape {
+		rec.Label("shape-a(snapshot):resync-after-tombstone-expiry-before-gc,then-gc")
+	}
 	return vs
+}
+
+func contains(l []oid.Address, a oid.Address) bool {
+	for _, x := range l {
+		if x == a {
+			return true
+		}
+	}
+	return false
 }
 
 func TestC09Removed(t *testing.T) {
@@ -241,11 +348,17 @@ func TestC09Removed(t *testing.T) {
 		}
 		defer r.Cleanup()
 		w := crashrig.NewWorld(r)
-		m := &model{r: r, removed: map[oid.Address]bool{}, raced: map[oid.Address]bool{}, resynced: map[oid.Address]bool{}, stored: map[oid.Address]bool{}, eventsAfter: map[string]bool{}}
+		// a third of the histories is steered towards each of the two expired-tombstone shapes
+		focus := rapid.IntRange(0, 2).Draw(t, "focus")
+		if focus == 2 {
+			w.LateTombs = 3
+		}
+
+		m := &model{r: r, removed: map[oid.Address]bool{}, raced: map[oid.Address]bool{}, resynced: map[oid.Address]bool{}, stored: map[oid.Address]bool{}, tombed: map[oid.Address]bool{}, tombsOf: map[oid.Address][]oid.Address{}, eventsAfter: map[string]bool{}}
 		r.OnStep = m.onStep
 		r.SnapMeta = m.snapMeta
 		// crash snapshots matter only once something has been removed
-		r.Filter = func(bool) bool { return len(m.removed) > 0 }
+		r.Filter = func(bool) bool { return len(m.removed)+len(m.tombed) > 0 }
 
 		var (
 			ops    []crashrig.Op
@@ -272,7 +385,7 @@ func TestC09Removed(t *testing.T) {
 				t.Fatalf("C09 violated [%s]: removed object %s readable again: %s (%s)%s\n  shard: %s\n  history: %s\n  op errors: %v",
 					fpRace, v.addr, v.what, v.where, extra, cfgs, crashrig.OpsString(ops), w.Log)
 			}
-			t.Fatalf("C09 violated: removed object %s readable again: %s (%s)%s\n  shard: %s\n  history: %s\n  op errors: %v",
+			t.Fatalf("C09 violated: removed (tombstoned / collected) object %s readable again: %s (%s)%s\n  shard: %s\n  history: %s\n  op errors: %v",
 				v.addr, v.what, v.where, extra, cfgs, crashrig.OpsString(ops), w.Log)
 		}
 		checkLive := func(where string) {
@@ -282,7 +395,7 @@ func TestC09Removed(t *testing.T) {
 			r.Lock()
 			st := m.snapMeta().(snapMeta)
 			r.Unlock()
-			for _, v := range observe(r.Sh, st.removed, where) {
+			for _, v := range observe(r.Sh, append(append([]oid.Address(nil), st.removed...), st.tombed...), where) {
 				fail(v, "", st)
 			}
 		}
@@ -296,7 +409,32 @@ func TestC09Removed(t *testing.T) {
 			gcInput  [][]oid.Address
 			delKnown []bool
 			wasRem   []bool
+			wasTomb  []bool
+			tombExp  = map[oid.Address]int{} // accepted tombstone -> its expiration epoch
+			// shapes of the history (labels): see the end of the case
+			shapeAResync, shapeAGC, shapeBPut, shapeBGC bool
 		)
+		// pendingTomb: tombstoned, not collected yet; expired: all its tombstones are expired now
+		pendingTomb := func() (pending, expired, inBlob bool) {
+			cur := int(r.Epoch.CurrentEpoch())
+			for x := range m.tombed {
+				if m.removed[x] {
+					continue
+				}
+				pending = true
+				for _, tb := range m.tombsOf[x] {
+					if tombExp[tb] < cur {
+						expired = true
+						if r.FS != nil && r.Sh != nil {
+							if ok, _ := r.FS.Storage.Exists(tb); ok {
+								inBlob = true
+							}
+						}
+					}
+				}
+			}
+			return
+		}
 		w.OnOp = func(op crashrig.Op, phase string, opErr error) {
 			r.Lock()
 			defer func() {
@@ -316,6 +454,8 @@ func TestC09Removed(t *testing.T) {
 					// (if the put is REJECTED nothing was stored anew: tracked again at its end)
 					a := crashrig.RegAddr(op.C, op.I)
 					wasRem = append(wasRem, m.removed[a])
+					wasTomb = append(wasTomb, m.tombed[a])
+					delete(m.tombed, a)
 					delete(m.removed, a)
 					delete(m.raced, a)
 					delete(m.resynced, a)
@@ -336,18 +476,66 @@ func TestC09Removed(t *testing.T) {
 				case crashrig.KDel:
 					ok, err := r.Sh.VerifMetabase().Exists(crashrig.RegAddr(op.C, op.I), true)
 					delKnown = append(delKnown, ok || err != nil)
+				case crashrig.KResync:
+					// A resync reads the blob storage only. A tombstone that still sits
+					// in the write-cache is not seen and its target loses the removal
+					// record: not asserted (excluded by construction, counted).
+					for x := range m.tombed {
+						ok := false
+						for _, tb := range m.tombsOf[x] {
+							if has, _ := r.FS.Storage.Exists(tb); has {
+								ok = true
+							}
+						}
+						if !ok {
+							delete(m.tombed, x)
+							if !m.removed[x] {
+								rec.Excluded(1)
+								labels["excluded:tombstone-only-in-write-cache-at-resync"] = true
+							}
+						}
+					}
+					if _, expired, inBlob := pendingTomb(); expired && inBlob && op.Mark == 0 {
+						shapeAResync = true
+					}
 				}
 				return
 			}
 			switch op.Kind {
 			case crashrig.KPut:
+				a := crashrig.RegAddr(op.C, op.I)
 				if opErr == nil {
-					m.stored[crashrig.RegAddr(op.C, op.I)] = true
-				} else if wasRem[len(wasRem)-1] {
-					m.complete(crashrig.RegAddr(op.C, op.I))
+					m.stored[a] = true
+					delete(m.tombsOf, a)
+				} else {
+					if wasRem[len(wasRem)-1] {
+						m.complete(a)
+					}
+					if wasTomb[len(wasTomb)-1] {
+						m.tombed[a] = true
+					}
 				}
 				wasRem = wasRem[:len(wasRem)-1]
+				wasTomb = wasTomb[:len(wasTomb)-1]
+			case crashrig.KTomb:
+				if opErr == nil {
+					x, tb := crashrig.RegAddr(op.C, op.I), crashrig.TombAddr(op.C, op.T)
+					m.tombed[x] = true
+					if !contains(m.tombsOf[x], tb) {
+						m.tombsOf[x] = append(m.tombsOf[x], tb)
+					}
+					tombExp[tb] = op.Exp
+					if op.Exp < int(r.Epoch.CurrentEpoch()) && m.stored[x] {
+						shapeBPut = true
+					}
+				}
 			case crashrig.KGC:
+				if shapeAResync {
+					shapeAGC = true
+				}
+				if shapeBPut {
+					shapeBGC = true
+				}
 				for _, a := range gcInput[len(gcInput)-1] {
 					m.complete(a)
 				}
@@ -376,6 +564,35 @@ func TestC09Removed(t *testing.T) {
 		}
 		// once a removal completed, prefer the events the property is about
 		w.Bias = func(add func(string, int)) {
+			// steer towards: tombstone expires WITHOUT a GC pass, then (flush and) resync, then GC
+			w.GCPendingWeight = 0
+			switch focus {
+			case 1: // tombstone expires WITHOUT a GC pass, then (flush and) resync, then GC
+				if pending, expired, inBlob := pendingTomb(); pending && !shapeAResync {
+					w.GCPendingWeight = 1
+					switch {
+					case !expired:
+						add(crashrig.KEpoch, 60)
+					case !inBlob:
+						add(crashrig.KFlush, 60)
+					default:
+						add(crashrig.KResync, 80)
+					}
+				} else if shapeAResync && !shapeAGC {
+					add(crashrig.KGC, 80)
+				} else if w.AnyStored() {
+					add(crashrig.KTomb, 8)
+				}
+			case 2: // a tombstone delivered late (expiration below the current epoch), then GC
+				switch {
+				case r.Epoch.CurrentEpoch() == 0:
+					add(crashrig.KEpoch, 10)
+				case shapeBPut && !shapeBGC:
+					add(crashrig.KGC, 80)
+				case w.AnyStored() && !shapeBPut:
+					add(crashrig.KTomb, 12)
+				}
+			}
 			if len(m.removed) == 0 {
 				if w.AnyPending() {
 					add(crashrig.KGC, 6)
@@ -417,13 +634,13 @@ func TestC09Removed(t *testing.T) {
 			}
 			for _, s := range snaps {
 				sm := s.Meta.(snapMeta)
-				if len(sm.removed) == 0 {
+				if len(sm.removed)+len(sm.tombed) == 0 {
 					os.RemoveAll(s.Dir)
 					continue
 				}
 				dg, err := snap.Digest(stor.BlobDir(s.Dir), stor.MetaPath(s.Dir), stor.WCDir(s.Dir))
 				must(err, "digest", s)
-				key := fmt.Sprintf("%s@%d%v", dg, s.Epoch, sm.removed)
+				key := fmt.Sprintf("%s@%d%v%v", dg, s.Epoch, sm.removed, sm.tombed)
 				if seen[key] {
 					os.RemoveAll(s.Dir)
 					continue
@@ -433,7 +650,7 @@ func TestC09Removed(t *testing.T) {
 				if s.Inside {
 					labels["crash-snapshot-inside-op-after-a-removal"] = true
 				}
-				for _, v := range aftermath(r, w, s) {
+				for _, v := range aftermath(r, w, s, rec) {
 					fail(v, fmt.Sprintf("\n  at %v", s), sm)
 				}
 				os.RemoveAll(s.Dir)
@@ -466,6 +683,21 @@ func TestC09Removed(t *testing.T) {
 		}
 		for _, o := range ops {
 			labels["op:"+o.Kind] = true
+		}
+		if shapeAResync {
+			labels["shape-a(live):resync-after-tombstone-expiry-before-gc"] = true
+		}
+		if shapeBPut {
+			labels["shape-b(live):late-tombstone(exp<epoch)-on-stored-object"] = true
+		}
+		if shapeAGC {
+			labels["shape-a(live):resync-after-tombstone-expiry-before-gc,then-gc"] = true
+		}
+		if shapeBGC {
+			labels["shape-b(live):late-tombstone(exp<epoch)-on-stored-object,then-gc"] = true
+		}
+		if len(m.tombed) > 0 {
+			labels["tombstoned-object-tracked"] = true
 		}
 		if strings.Contains(crashrig.OpsString(ops), "tomb(") && m.completions > 0 {
 			labels["tombstone+removal"] = true
